@@ -147,7 +147,10 @@ class Symex:
             args = [("arg", i) for i in range(1, fn.arg_count + 1)]
         self.npaths = 0
         self.root_inst = inst
-        self.deadline = time.time() + self.budget_s
+        # the budget is counted in interpreter steps (deterministic: a loaded machine must not turn into a finding); the wall clock is only a
+        # distant safety net at ten times the nominal budget
+        self.max_steps = int(self.budget_s * 50000)
+        self.deadline = time.time() + 10 * self.budget_s
         self.steps = 0
         out = []
         for st2, kind, val in self.call_fn(fn, list(args), st, inst=inst):
@@ -177,8 +180,8 @@ class Symex:
     def exec_from(self, fn, st, bb, fu, inst):
         while True:
             self.steps += 1
-            if self.deadline is not None and self.steps % 256 == 0 and time.time() > self.deadline:
-                raise Unanalysable("analysis budget of %.0fs exhausted" % self.budget_s)
+            if self.steps > self.max_steps or (self.deadline is not None and self.steps % 1024 == 0 and time.time() > self.deadline):
+                raise Unanalysable("analysis budget exhausted (%d steps)" % self.steps)
             vk = (fu, bb)
             n = st.visits.get(vk, 0) + 1
             st.visits[vk] = n
